@@ -41,6 +41,8 @@ def main():
         cs = verify.load_contracts(w, w.contract_dir)
         wanted = getattr(pm, 'CONTRACTS', None)
         names = [c.name for c in cs if (args.prop in c.props if wanted is None else c.name in wanted)]
+        byname = {c.name: c for c in cs}
+        names = [n for n in names if args.tier in (byname[n].decl.get('tiers') or (args.tier,))]
         if args.only:
             names = [n for n in names if n in args.only.split(',')]
         report.case_counts = {c.name: len(c.cases) for c in cs}
